@@ -13,7 +13,7 @@
 (* does is visible to another -- the design-level statement of the         *)
 (* property, checked as Pure in every interleaved state.                   *)
 (***************************************************************************)
-EXTENDS JMES, Json, Toks, DocsApi
+EXTENDS JMES, Json, Toks, DocsApiConc
 
 CONSTANTS Emit, Prop, Gates, NCallSets, Rounds, First   \* call sets First..NCallSets
 
@@ -31,7 +31,7 @@ Texts == <<
   <<A, Dot>>,
   Fn(<<115,111,114,116,95,98,121>>, <<Id(<<98,97,100>>), Comma, AmpT, Id(<<107>>)>>),          \* fails on the last of 40 elements
   Fn(<<115,111,114,116,95,98,121>>, <<A, Comma, AmpT, Id(<<107>>)>>) \o <<LB, Star, RB, Dot, Id(<<118>>)>> >>
-Docs == PoolApi
+Docs == PoolApiConc
 
 C(op, t, d) == [op |-> op, t |-> t, d |-> d]
 \* one sequence of calls per goroutine
@@ -72,7 +72,7 @@ Done == \A g \in 1..NG : pc[g] = Total(g)
 \* every completed call returned what it would return if run alone
 Pure == \A k \in 1..Len(outs) : outs[k].out = Expected(CallSets[cs][outs[k].g][outs[k].i])
 Check ==
-  LET case == [p |-> Prop, kind |-> "sched", pool |-> "Api", gates |-> Gates,
+  LET case == [p |-> Prop, kind |-> "sched", pool |-> "ApiConc", gates |-> Gates,
                texts |-> [t \in 1..Len(Texts) |-> Render(Texts[t])],
                calls |-> [g \in 1..NG |-> [i \in 1..Len(CallSets[cs][g]) |->
                             LET c == CallSets[cs][g][i] IN
@@ -81,7 +81,7 @@ Check ==
                                sadm |-> IF c.op = "compile" THEN Expected(c) ELSE {}]]],
                sched |-> sched]
       \* the same call set, to be run ungated under the race detector
-      racecase == [p |-> Prop, kind |-> "race", pool |-> "Api", rounds |-> Rounds, goroutines |-> 8,
+      racecase == [p |-> Prop, kind |-> "race", pool |-> "ApiConc", rounds |-> Rounds, goroutines |-> 8,
                    texts |-> case.texts, calls |-> case.calls]
   IN /\ (Emit /\ Done) => PrintT("CASE " \o ToJson(case))
      /\ (Emit /\ sched = <<>>) => PrintT("CASE " \o ToJson(racecase))
